@@ -8,7 +8,8 @@ PROPS["C14"] = dict(
     check_module="Nft.Check",
     check_fn="check_case",
     streams=[dict(name="main", quick=320, thorough=8000)],
-    coq_shard=40,
+    coq_shard=20,
+    coq_case_timeout=3600,
     rule="histories of 12-35 (thorough: 12-75) steps = issue-class / mint / edit / transfer (plain, with metadata changes, "
          "with every field set to the do-not-modify sentinel, to self) / burn / class hand-over messages by 4 actors (owners, "
          "class creators and strangers) and block boundaries, over up to 5 classes drawn with every combination of the "
